@@ -220,6 +220,11 @@ pub fn gen_dimacs(rng: &mut Rng, kind: PK, lt: u8, consistent_header: bool, size
         };
         clauses.push((extra, lits));
     }
+    if size >= 2000 && !clauses.is_empty() && rng.chance(1, 3) {
+        // a clause with more literals than any reservation cap, longer than the reader's chunk
+        let k = rng.usize(clauses.len());
+        clauses[k].1 = (0..long_count(rng)).map(|_| boundary_lit(rng, var_range)).collect();
+    }
     let max_var = clauses
         .iter()
         .flat_map(|c| c.1.iter())
@@ -293,7 +298,8 @@ impl DimacsDoc {
     }
 }
 
-pub const FEATURES: [&str; 20] = [
+pub const FEATURES: [&str; 21] = [
+    "comment_with_non_ascii_bytes",
     "multi_blank_between_tokens",
     "tab_separator",
     "trailing_blanks",
@@ -339,6 +345,38 @@ impl<'a> Layout<'a> {
         match &mut self.rng {
             Some(r) => r.usize(max + 1),
             None => 0,
+        }
+    }
+    /// free text of a comment / ignored line: any byte but LF, with weight on bytes >= 0x80 (UTF-8,
+    /// Latin-1) and on lengths around the 8-byte word size
+    fn text(&mut self) -> Vec<u8> {
+        match &mut self.rng {
+            Some(r) => {
+                let n = match r.below(6) {
+                    0 => r.usize(4),
+                    1 => 6 + r.usize(5),
+                    2 => 14 + r.usize(5),
+                    3 => 60 + r.usize(300),
+                    _ => r.usize(30),
+                };
+                (0..n)
+                    .map(|_| {
+                        let c = match r.below(8) {
+                            0 | 1 => 0x80 + r.below(0x80) as u8,
+                            2 => *r.pick(&[0x8au8, 0x0b, 0x0c, 0x0d, 0x09, 0x00, 0xff, 0x7f, 0x85]),
+                            3 => r.below(256) as u8,
+                            4 => *r.pick(b" 0123456789-"),
+                            _ => b'a' + r.below(26) as u8,
+                        };
+                        if c == b'\n' {
+                            b'_'
+                        } else {
+                            c
+                        }
+                    })
+                    .collect()
+            }
+            None => vec![],
         }
     }
     fn pick(&mut self, xs: &'static [&'static [u8]]) -> &'static [u8] {
@@ -407,14 +445,24 @@ fn comment_line(b: &mut B, l: &mut Layout) {
         b"cfoo",
     ];
     let k = l.n(texts.len() - 1);
-    if k == 0 {
-        feat(b, "empty_comment");
+    if l.on() {
+        // free text (any byte but LF) behind the 'c'
+        let mut t = vec![b'c'];
+        t.extend_from_slice(&l.text());
+        if t.iter().any(|&c| c >= 0x80) {
+            feat(b, "comment_with_non_ascii_bytes");
+        }
+        b.tok(&t, Role::Comment, "comment", None);
+    } else {
+        if k == 0 {
+            feat(b, "empty_comment");
+        }
+        if k == 2 || k == 4 || k == 6 {
+            feat(b, "comment_with_cr_or_digits");
+        }
+        let t = texts[k];
+        b.tok(t, Role::Comment, "comment", None);
     }
-    if k == 2 || k == 4 || k == 6 {
-        feat(b, "comment_with_cr_or_digits");
-    }
-    let t = texts[k];
-    b.tok(t, Role::Comment, "comment", None);
     if l.on() {
         feat(b, "crlf");
         b.raw(b"\r\n");
@@ -676,7 +724,8 @@ impl LogDoc {
     }
 }
 
-pub const LOG_FEATURES: [&str; 12] = [
+pub const LOG_FEATURES: [&str; 13] = [
+    "lines_with_non_ascii_bytes",
     "comment_lines",
     "unknown_lines",
     "values_split_over_lines",
@@ -720,13 +769,28 @@ pub fn render_log(doc: &LogDoc, ignore_unknown: bool, l: &mut Layout) -> Doc {
                 if (t.starts_with(b"v ") && values_open) || (t.starts_with(b"s ") && status_open) {
                     t = b"x";
                 }
-                b.raw(t);
+                if l.on() {
+                    // free text (any byte but LF) that cannot be taken for a "c ", "v " or "s " line
+                    let mut x = vec![*l.pick(&[b"x", b"\xc3", b"#", b"V"]).first().unwrap()];
+                    x.extend_from_slice(&l.text());
+                    lfeat(b, "lines_with_non_ascii_bytes");
+                    b.raw(&x);
+                } else {
+                    b.raw(t);
+                }
                 b.raw(b"\n");
             } else {
                 lfeat(b, "comment_lines");
                 let cands: &[&[u8]] = &[b"c ", b"c hello", b"c v 1 2 0", b"c s SATISFIABLE", b"c  \t x\r"];
                 let t = l.pick(cands);
-                b.tok(t, Role::Comment, "comment", None);
+                if l.on() {
+                    let mut x = b"c ".to_vec();
+                    x.extend_from_slice(&l.text());
+                    lfeat(b, "lines_with_non_ascii_bytes");
+                    b.tok(&x, Role::Comment, "comment", None);
+                } else {
+                    b.tok(t, Role::Comment, "comment", None);
+                }
                 if l.on() {
                     lfeat(b, "crlf");
                     b.raw(b"\r\n");
@@ -919,7 +983,28 @@ fn utf8_name(rng: &mut Rng, allow_newline: bool) -> Vec<u8> {
 }
 
 pub fn gen_aiger(rng: &mut Rng, binary: bool, lt: u8, size: usize) -> AigerDoc {
+    gen_aiger_ext(rng, binary, lt, size, None)
+}
+
+pub const AIGER_LONG_SECTIONS: [&str; 10] = [
+    "inputs", "latches", "gates", "outputs", "bad", "constraints", "justice_properties", "one_justice_property",
+    "fairness", "symbols",
+];
+
+/// a count around the parsers' reservation cap (4096) and the reader's default chunk
+pub fn long_count(rng: &mut Rng) -> u64 {
+    *rng.pick(&[4095u64, 4096, 4097, 4100, 5000, 8193, 12000])
+}
+
+/// `long`: (index into AIGER_LONG_SECTIONS, entry count) - that section gets that many entries
+pub fn gen_aiger_ext(rng: &mut Rng, binary: bool, lt: u8, size: usize, long: Option<(usize, u64)>) -> AigerDoc {
     let max_m = (max_code(lt) - 1) / 2;
+    let want = |k: usize| -> Option<u64> {
+        match long {
+            Some((s, n)) if s == k => Some(n),
+            _ => None,
+        }
+    };
     let cnt = |rng: &mut Rng, cap: u64| -> u64 {
         let v = match rng.below(6) {
             0 => 0,
@@ -931,14 +1016,23 @@ pub fn gen_aiger(rng: &mut Rng, binary: bool, lt: u8, size: usize) -> AigerDoc {
     };
     let mut budget = max_m;
     let mut i = cnt(rng, budget);
-    if binary && lt >= 3 && rng.chance(1, 4) {
+    if binary && lt >= 3 && rng.chance(1, 4) && want(0).is_none() {
         // huge input count: makes delta codes of every length up to 10 bytes without per-input data
         i = (1u64 << (6 + rng.below(57))).min(max_m - 8) + rng.below(3);
     }
+    if let Some(n) = want(0) {
+        i = n.min(budget);
+    }
     budget -= i;
-    let l = cnt(rng, budget);
+    let mut l = cnt(rng, budget);
+    if let Some(n) = want(1) {
+        l = n.min(budget);
+    }
     budget -= l;
-    let a = cnt(rng, budget);
+    let mut a = cnt(rng, budget);
+    if let Some(n) = want(2) {
+        a = n.min(budget);
+    }
     budget -= a;
     let slack = match rng.below(4) {
         0 => 0,
@@ -946,8 +1040,8 @@ pub fn gen_aiger(rng: &mut Rng, binary: bool, lt: u8, size: usize) -> AigerDoc {
         _ => rng.below(budget.min(5) + 1),
     };
     let m = i + l + a + slack;
-    let o = cnt(rng, u64::MAX);
-    let (bcnt, ccnt, jcnt, fcnt) = if rng.chance(1, 2) {
+    let mut o = cnt(rng, u64::MAX);
+    let (mut bcnt, mut ccnt, mut jcnt, mut fcnt) = if rng.chance(1, 2) {
         (0, 0, 0, 0)
     } else {
         (
@@ -957,6 +1051,14 @@ pub fn gen_aiger(rng: &mut Rng, binary: bool, lt: u8, size: usize) -> AigerDoc {
             cnt(rng, u64::MAX),
         )
     };
+    o = want(3).unwrap_or(o);
+    bcnt = want(4).unwrap_or(bcnt);
+    ccnt = want(5).unwrap_or(ccnt);
+    jcnt = want(6).unwrap_or(jcnt);
+    fcnt = want(8).unwrap_or(fcnt);
+    if want(7).is_some() && jcnt == 0 {
+        jcnt = 1 + rng.below(3);
+    }
     // variable assignment
     let vars: Vec<u64> = if binary {
         // position = variable: inputs 1..=i (not materialised), then latches, then gates
@@ -1053,7 +1155,7 @@ pub fn gen_aiger(rng: &mut Rng, binary: bool, lt: u8, size: usize) -> AigerDoc {
     let bad = lits(rng, bcnt);
     let constr = lits(rng, ccnt);
     let fair = lits(rng, fcnt);
-    let justice: Vec<Vec<u64>> = (0..jcnt)
+    let mut justice: Vec<Vec<u64>> = (0..jcnt)
         .map(|_| {
             let n = match rng.below(4) {
                 0 => 0,
@@ -1063,6 +1165,10 @@ pub fn gen_aiger(rng: &mut Rng, binary: bool, lt: u8, size: usize) -> AigerDoc {
             lits(rng, n)
         })
         .collect();
+    if let Some(n) = want(7) {
+        let k = rng.usize(justice.len());
+        justice[k] = lits(rng, n);
+    }
     // symbols
     let mut symbols = vec![];
     let counts = [
@@ -1095,6 +1201,15 @@ pub fn gen_aiger(rng: &mut Rng, binary: bool, lt: u8, size: usize) -> AigerDoc {
         }
         if rng.chance(1, 3) {
             rng.shuffle(&mut symbols);
+        }
+    }
+    if let Some(n) = want(9) {
+        let kinds: Vec<(u8, u64)> = counts.iter().copied().filter(|c| c.1 > 0).collect();
+        if !kinds.is_empty() {
+            for _ in 0..n {
+                let (k, c) = *rng.pick(&kinds);
+                symbols.push((k, rng.below(c), utf8_name(rng, false)));
+            }
         }
     }
     let comment = if rng.chance(1, 3) {
@@ -1473,9 +1588,40 @@ pub fn gen_btor(rng: &mut Rng, size: usize, free_layout: bool) -> BtorDoc {
     };
     let start = rng.next();
     let cover = rng.chance(1, 3);
-    let lines: Vec<BLine> = (0..n)
+    let mut lines: Vec<BLine> = (0..n)
         .map(|i| gen_btor_line(rng, if cover { start.wrapping_add(i as u64) % 1000 } else { u64::MAX }))
         .collect();
+    if size >= 400 && n > 0 && rng.chance(1, 3) {
+        // items larger than any reservation cap / than the reader's chunk: a justice line with thousands of
+        // nodes, a constant with thousands of digits, a symbol and a comment longer than 16 KiB
+        for _ in 0..1 + rng.usize(3) {
+            let k = rng.usize(n);
+            let long = |rng: &mut Rng, n: usize, symbol: bool| -> Vec<u8> {
+                let mut v = vec![];
+                while v.len() < n {
+                    let mut part = btor_bytes(rng, symbol);
+                    if symbol && !v.is_empty() && part.first() == Some(&b';') {
+                        part[0] = b'_';
+                    }
+                    v.extend_from_slice(&part);
+                }
+                v
+            };
+            if let BLine::Node { kind, symbol, comment, .. } = &mut lines[k] {
+                match rng.below(4) {
+                    0 => *kind = BKind::Justice((0..long_count(rng)).map(|_| gen_id(rng)).collect()),
+                    1 => {
+                        let n = long_count(rng) as usize * 4;
+                        *kind = BKind::Const("consth", gen_id(rng), (0..n).map(|_| *rng.pick(b"0123456789abcdefABCDEF") as char).collect());
+                    }
+                    2 => *symbol = Some(long(rng, 17_000, true)),
+                    _ => *comment = Some(long(rng, 17_000, false)),
+                }
+            } else {
+                lines[k] = BLine::Comment(long(rng, 17_000, false));
+            }
+        }
+    }
     let mut pre_blank = vec![0u8; n];
     let mut pre_space = vec![0u8; n];
     if free_layout {
